@@ -437,7 +437,11 @@ Definition parse_assignment (ts : list token) : result (rinstr * list token) :=
   ts <- consume_op "=" ts ;;
   match ts with
   | TId a :: ts1 =>
-      match peek_binop ts1 with
+      match (match peek_binop ts1 with
+             | Some o => Some o
+             | None => if fx_ops c && negb (mem_str a ["phi"; "alloc"; "load"; "cast"; "call"; "literal"])
+                       then peek_rot ts1 else None
+             end) with
       | Some o => '(b, ts2) <- parse_id (tl ts1) ;; Ok (RBinop t n a o b, ts2)
       | None =>
           if String.eqb a "phi" then
@@ -455,10 +459,7 @@ Definition parse_assignment (ts : list token) : result (rinstr * list token) :=
             match ts1 with TStr h :: ts2 => Ok (RLit t n h, ts2) | _ => perr end
           else if fx_float c && (String.eqb a "inf" || String.eqb a "nan") then
             Ok (RConst t n (RFloat a), ts1)
-          else match (if fx_ops c then peek_rot ts1 else None) with
-               | Some o => '(b, ts2) <- parse_id (tl ts1) ;; Ok (RBinop t n a o b, ts2)
-               | None => Internal NotImplemented
-               end
+          else Internal NotImplemented
       end
   | TInt z :: ts1 => Ok (RConst t n (RInt z), ts1)
   | TFloat s :: ts1 => Ok (RConst t n (RFloat s), ts1)
@@ -914,3 +915,131 @@ Definition case_lexprint (c : tcfg) (tr : list (Z * string)) (m : modul) : bool 
   | Ok ts => if list_eq_dec token_eq_dec ts (print_tokens c (fr_of tr) m) then true else false
   | _ => false
   end.
+Definition okfail (v : val) : val := match v with VOk x => VOk x | _ => VInternal end.
+
+(* ------------------------------------------------------------------ printable: what the format carries *)
+(* raw level (what [parse] needs): *)
+Definition kw6 : list string := ["phi"; "alloc"; "load"; "cast"; "call"; "literal"].
+Definition rprintable_instr (c : tcfg) (i : rinstr) : bool :=
+  match i with
+  | RBinop _ _ a o _ => match o with Rol | Ror => fx_ops c && negb (mem_str a kw6) | _ => true end
+  | RUnop _ _ o _ => match o with Inv => fx_ops c | Neg => true end
+  | RConst _ _ (RFloat s) => if String.eqb s "inf" || String.eqb s "nan" then fx_float c else true
+  | RPhi _ _ ins => negb (Nat.eqb (List.length ins) 0)
+  | RCopyBlob _ _ _ | RUndef _ => false
+  | _ => true
+  end.
+Definition rprintable_item (c : tcfg) (x : ritem) : bool :=
+  match x with
+  | RExt _ => true
+  | RVar g => match rv_value g with Some _ => fx_init c | None => true end
+  | RFunc f => forallb (fun k => forallb (rprintable_instr c) (rb_ins k)) (rf_blocks f)
+  end.
+Definition rprintable (c : tcfg) (m : rmodul) : bool := forallb (rprintable_item c) (rm_items m).
+(* bound for the loops of [parse] *)
+Definition rsize_instr (i : rinstr) : nat :=
+  match i with
+  | RPhi _ _ ins => List.length ins
+  | RCallF _ _ _ args | RCallP _ args => List.length args
+  | _ => O
+  end.
+Definition list_max (l : list nat) : nat := fold_right Nat.max O l.
+Definition rsize_item (x : ritem) : nat :=
+  match x with
+  | RExt (EFunc _ args _) | RExt (EProc _ args) => List.length args
+  | RExt (EVar _) => O
+  | RVar g => match rv_value g with Some l => List.length l | None => O end
+  | RFunc f => Nat.max (Nat.max (List.length (rf_params f)) (List.length (rf_blocks f)))
+                 (list_max (map (fun k => Nat.max (List.length (rb_ins k)) (list_max (map rsize_instr (rb_ins k))))
+                                (rf_blocks f)))
+  end.
+Definition rsize (m : rmodul) : nat :=
+  Nat.max (List.length (rm_items m)) (list_max (map rsize_item (rm_items m))).
+
+(* module level: characters (names must be identifiers, float texts must be lexemes), the
+   constructor checks of ppci.ir, and the exclusions that are findings *)
+Definition is_ident (s : string) : bool :=
+  match s with
+  | EmptyString => false
+  | String ch r => is_alpha ch && match span is_idchar r with (_, EmptyString) => true | _ => false end
+  end.
+Definition float_lexeme (c : tcfg) (s : string) : bool :=
+  if String.eqb s "inf" || String.eqb s "nan" then fx_float c
+  else match lex c s with Ok [TFloat x] => String.eqb x s | _ => false end.
+Definition ref_ty (f : func) (r : vref) : option ty :=
+  match r with
+  | Loc v => match find_def f v with Some d => Some (def_ty d) | None => None end
+  | Param n => match nth_error (f_params f) n with Some p => Some (snd p) | None => None end
+  | Glob _ => Some Ptr
+  | Unres _ => None
+  end.
+Definition ref_has (f : func) (r : vref) (p : ty -> bool) : bool :=
+  match ref_ty f r with Some t => p t | None => false end.
+(* the checks of the ppci.ir constructors (every live ir object satisfies them) *)
+Definition ctor_ok (f : func) (i : instr) : bool :=
+  match i with
+  | IBinop _ _ t _ a b => ref_has f a (ty_eqb t) && ref_has f b (ty_eqb t)
+  | IUnop _ _ t _ a => ref_has f a (ty_eqb t)
+  | ILoad _ _ t a _ => ref_has f a (ty_eqb Ptr) && negb (ty_is_blob t)
+  | IStore _ a _ => ref_has f a (ty_eqb Ptr)
+  | IAlloc _ _ s _ => negb (s =? 0)
+  | IAddrOf _ _ a => ref_has f a ty_is_blob
+  | ILit _ _ d => all_byte d
+  | IPhi _ _ t ins => forallb (fun p => ref_has f (snd p) (ty_eqb t)) ins
+  | ICallF _ _ _ cl _ | ICallP cl _ => ref_has f cl (ty_eqb Ptr)
+  | _ => true
+  end.
+(* a value used before its definition in print order, in two operand slots of one instruction
+   or as a repeated call argument: the replace_use defects of ppci/ir.py (known findings) *)
+Fixpoint count_ref (r : vref) (l : list vref) : nat :=
+  match l with [] => O | x :: t => (if vref_eqb x r then 1 else 0)%nat + count_ref r t end.
+Definition fwd_double (next : positive) (i : instr) : bool :=
+  existsb (fun r => match r with
+                    | Loc v => negb (Pos.ltb v next) && Nat.leb 2 (count_ref r (instr_uses i))
+                    | _ => false
+                    end) (instr_uses i).
+Fixpoint no_fwd_double (next : positive) (l : list instr) : bool :=
+  match l with
+  | [] => true
+  | i :: r => negb (fwd_double next i)
+              && no_fwd_double (match instr_def i with Some _ => Pos.succ next | None => next end) r
+  end.
+Definition instr_floats_ok (c : tcfg) (fr : Z -> string) (fp : string -> option Z) (i : instr) : bool :=
+  match i with
+  | IConst _ _ _ (CFloat b) =>
+      float_lexeme c (fr b) && match fp (fr b) with Some b' => b' =? b | None => false end
+  | _ => true
+  end.
+Definition printable_func (c : tcfg) (fr : Z -> string) (fp : string -> option Z) (f : func) : bool :=
+  is_ident (f_name f) && forallb (fun p => is_ident (fst p)) (f_params f)
+  && forallb (fun k => is_ident (b_name k)) (f_blocks f)
+  && forallb (fun d => is_ident (def_name d)) (func_defs f)
+  && forallb (fun i => ctor_ok f i && instr_floats_ok c fr fp i) (func_instrs f)
+  && forallb (rprintable_instr c) (map (erase_instr fr f) (func_instrs f))
+  && no_fwd_double 1 (func_instrs f).
+Definition printable (c : tcfg) (fr : Z -> string) (fp : string -> option Z) (m : modul) : bool :=
+  print_ok c m && is_ident (m_name m)
+  && forallb (fun e => is_ident (ext_name e)) (m_externals m)
+  && forallb (fun g => is_ident (g_name g)
+                       && match g_value g with
+                          | Some l => forallb (fun i => match i with InitRef _ s => is_ident s | _ => true end) l
+                          | None => true
+                          end) (m_vars m)
+  && forallb (printable_func c fr fp) (m_funcs m).
+
+(* the round trip, as one boolean (used by the bounded theorem and by the check) *)
+Definition tokens_eqb (a b : list token) : bool := if list_eq_dec token_eq_dec a b then true else false.
+Definition roundtrip_ok (c : tcfg) (tab : list (Z * string)) (m : modul) : bool :=
+  let fr := fr_of tab in
+  let fp := fp_of tab in
+  wf_modul m && printable c fr fp m
+  && match lex c (print_text c fr m) with
+     | Ok ts => tokens_eqb ts (print_tokens c fr m)
+     | _ => false
+     end
+  && match read_tokens c fp (print_tokens c fr m) with
+     | Ok m' => modul_eqb m' (norm c m)
+     | _ => false
+     end
+  && (tokens_eqb (print_tokens c fr (norm c m)) (print_tokens c fr m)
+      && String.eqb (print_text c fr (norm c m)) (print_text c fr m)).
